@@ -206,3 +206,22 @@ Proof.
   - intros Ht. exact (sub_op_sized_final ir a b dst r m Hm Hr Hr10 Ht).
 Qed.
 Print Assumptions C02_add_sub_final_state_small_sizes.
+
+(* a word destination in memory (any memory addressing mode, effective address in RAM): the word at that address
+   is the result, the condition codes are as for a register destination, no register but the PSW and no other
+   RAM byte changes *)
+From Dmd Require Import Proofs.MachKit Proofs.BusProofs.
+Theorem C02_logic_mul_word_final_state_memory_destination :
+  forall ir m f dst a x y,
+    std_arm (iopcode ir) = Some (f, dst) -> read_op ir 0 m = Ok x m -> read_op ir 1 m = Ok y m ->
+    memory_mode (omode (get_op ir dst)) -> effective_address ir dst m = Ok a m ->
+    data_type (get_op ir dst) = DWord -> otype (get_op ir dst) = DWord ->
+    bus_wf (mbus m) -> in_ram_w a ->
+    let res := f x y in
+    exists m', exec ir m = Ok (ilen ir) m'
+      /\ ldw m' a = w32 res
+      /\ flag F_N m' = Z.testbit res 31 /\ flag F_Z m' = (res =? 0) /\ flag F_C m' = false /\ flag F_V m' = false
+      /\ (forall i, 0 <= i <= 15 -> i <> 11 -> R m' i = R m i)
+      /\ (forall b, RAMB <= b -> (b < a \/ a + 4 <= b) -> ramb m' b = ramb m b).
+Proof. exact logic_mul_mem_word_final. Qed.
+Print Assumptions C02_logic_mul_word_final_state_memory_destination.
